@@ -208,3 +208,11 @@ def run_plain(cfg, seed, hooks=None, between=None):
         if between is not None:
             between()
     return m.systems['digest'].records[-1]['digest'], m
+
+
+class KwTraceModel(TraceModel):
+    """The same model written with an open signature: everything but cfg travels through **kwargs (the seed included)."""
+    __slots__ = []
+
+    def __init__(self, cfg, **model_kwargs):
+        super().__init__(cfg, model_kwargs.pop('seed', None), **model_kwargs)
